@@ -74,7 +74,11 @@ func verifAddr(s string) sdk.AccAddress {
 // H = hex(sha256(.)), B64 = base64 decode, Cert = pem+x509 parse, Chk = x509 CheckSignature, JSON field extraction.
 
 //verif:model github.com/chain4energy/c4e-chain/x/cfesignature/util.CalculateHash
-func model_CalculateHash(in string) string { return verif_uf_str("H_sha256hex", in) }
+func model_CalculateHash(in string) string {
+	h := verif_uf_str("H_sha256hex", in)
+	verif_assume(len(h) == 64) // hex of a sha256 digest
+	return h
+}
 
 //verif:model (*encoding/base64.Encoding).DecodeString
 func model_b64_DecodeString(enc *base64.Encoding, s string) ([]byte, error) {
